@@ -169,6 +169,16 @@ func (p *c16Parser) obj() *c16Obj {
 			}
 			o.kind, o.obj = "single-float", slip.SingleFloat(f)
 			o.text = strconv.FormatFloat(float64(f), 'g', -1, 32) + "s0"
+		case 'D', 'S':
+			// negative zero: the value is 0, the object is -0.0
+			if r.Sign() != 0 {
+				p.fail("negative zero")
+			}
+			if rep == 'D' {
+				o.kind, o.obj, o.text = "double-float", slip.DoubleFloat(math.Copysign(0, -1)), "-0.0d0"
+			} else {
+				o.kind, o.obj, o.text = "single-float", slip.SingleFloat(math.Copysign(0, -1)), "-0.0s0"
+			}
 		case 'l':
 			f := new(big.Float).SetPrec(uint(r.Num().BitLen() + r.Denom().BitLen() + 64))
 			if _, acc := f.SetRat(r), big.Exact; acc != big.Exact {
@@ -303,7 +313,8 @@ func c16FixedUniverse(g *c16Gen) []string {
 		"N",
 		// value 5 in five representations, value 0, negative
 		g.numS('f', "5"), g.numS('b', "5"), g.numS('r', "5"), g.sgl(5), g.dbl(5), g.numS('f', "5"),
-		g.numS('f', "0"), g.dbl(0), g.dbl(math.Copysign(0, -1)), g.numS('f', "-5"), g.dbl(-5),
+		g.numS('f', "0"), g.dbl(0), g.numS('D', "0"), g.numS('S', "0"), g.sgl(0), g.numS('b', "0"), g.numS('f', "-5"), g.dbl(-5),
+		g.list(g.numS('D', "0")), g.list(g.numS('f', "0")), g.vec(g.numS('D', "0")), g.vec(g.dbl(0)),
 		// long-floats
 		g.numS('l', "5"), g.numS('l', "1/2"), g.numS('l', "1/2"), g.numS('l', "3/2"), g.numS('l', "18446744073709551616"),
 		g.numS('l', "9007199254740992"), g.vec(g.numS('l', "9007199254740992")),
@@ -355,6 +366,9 @@ func (g *c16Gen) randomLeaf() string {
 			n = int64(r.Intn(1<<22)) - (1 << 21)
 		}
 		den := []int64{1, 1, 1, 2, 4, 8}[r.Intn(6)]
+		if n == 0 && c16AvoidNegZero {
+			n = 1
+		}
 		return big.NewRat(n, den)
 	}
 	switch r.Intn(12) {
@@ -372,11 +386,40 @@ func (g *c16Gen) randomLeaf() string {
 		}
 		return g.num('d', small())
 	case 4:
-		if r.Bool() {
-			return g.num('r', big.NewRat(int64(r.Intn(8)+1)*3+1, 3)) // 4/3, 7/3, …: no float of the universe is their rounding
+		// clusters around the precision boundaries of the float formats and around fractions that are
+		// not floats: the exact neighbours in every exact representation, and the floats nearest to them
+		var v *big.Rat
+		if r.Chance(70) {
+			b := new(big.Int).Lsh(big.NewInt(1), uint([]int{24, 25, 53, 54, 63, 64, 70}[r.Intn(7)]))
+			b.Add(b, big.NewInt(int64(r.Intn(5)-2)))
+			if r.Chance(30) {
+				b.Neg(b)
+			}
+			v = new(big.Rat).SetInt(b)
+		} else {
+			v = big.NewRat(int64(r.Intn(9)-4)*3+1, []int64{3, 10, 7}[r.Intn(3)])
 		}
-		// bignums that no float of the universe rounds to (2^70 + k*2^20 is itself a double)
-		return g.num('b', new(big.Rat).SetInt(new(big.Int).Add(new(big.Int).Lsh(big.NewInt(1), 70), big.NewInt(int64(r.Intn(3))<<20))))
+		switch r.Intn(4) {
+		case 0:
+			f, _ := v.Float64()
+			return g.dbl(f)
+		case 1:
+			f, _ := v.Float32()
+			return g.sgl(f)
+		}
+		var reps []byte
+		if v.IsInt() {
+			reps = append(reps, 'b', 'r')
+			if v.Num().IsInt64() {
+				reps = append(reps, 'f', 'f')
+			}
+		} else {
+			reps = append(reps, 'r')
+		}
+		if _, exact := v.Float64(); exact {
+			reps = append(reps, 'd', 'l')
+		}
+		return g.num(reps[r.Intn(len(reps))], v)
 	case 5:
 		return g.chr([]rune{'a', 'A', 'b', 'B', '1', ' ', '→', 'z'}[r.Intn(8)])
 	case 6, 7:
@@ -418,6 +461,9 @@ func (g *c16Gen) variantOf(w string, o *c16Obj, depth int) string {
 		}
 		return string(rs)
 	}
+	if c16AvoidNegZero && o.rat != nil && o.rat.Sign() == 0 {
+		return g.num('f', big.NewRat(1, 1)) // no zero-valued numbers next to the listed negative zero
+	}
 	switch o.kind {
 	case "null", "other":
 		return w
@@ -437,6 +483,9 @@ func (g *c16Gen) variantOf(w string, o *c16Obj, depth int) string {
 		}
 		if _, exact := v.Float64(); exact {
 			reps = append(reps, 'd', 'l')
+		}
+		if v.Sign() == 0 && !c16AvoidNegZero {
+			reps = append(reps, 'D', 'S')
 		}
 		return g.num(reps[r.Intn(len(reps))], v)
 	case "character":
@@ -785,8 +834,7 @@ func c16CheckUniverse(c *lib.Ctx, u *c16Universe) {
 				if (got == "t") != want {
 					sig := fmt.Sprintf("pred=%s law=model kinds=%s aspect=impl-%s", c16PredName(p), kinds, got)
 					if rounded {
-						// one cause, whatever the operand kinds: the signature names the cause
-						sig = fmt.Sprintf("pred=%s law=model aspect=impl-%s:float-rounding", c16PredName(p), got)
+						sig += ":float-rounding"
 					}
 					c.Report(sig, sweep(i, j), rp)
 				}
@@ -811,7 +859,7 @@ func c16CheckUniverse(c *lib.Ctx, u *c16Universe) {
 					rp["expected_from"] = "property statement"
 					sig := fmt.Sprintf("pred=%s law=symmetric kinds=%s aspect=asymmetric", c16PredName(p), c16Shape(a)+","+c16Shape(b))
 					if rounded {
-						sig = fmt.Sprintf("pred=%s law=symmetric aspect=asymmetric:float-rounding", c16PredName(p))
+						sig += ":float-rounding"
 					}
 					c.Report(sig, sweep(i, j), rp)
 				}
@@ -834,8 +882,8 @@ func c16CheckUniverse(c *lib.Ctx, u *c16Universe) {
 						"observed": hi[2:] + " vs " + hj[2:], "expected": "equal codes for equal objects", "expected_from": "property statement + SlipVerif.Equality.sxhash_congr",
 						"relies_on": []string{"SlipVerif.Equality.sxhash_congr"}}
 					sig := fmt.Sprintf("law=sxhash kinds=%s aspect=%s", c16Shape(a)+","+c16Shape(b), c16HashAspect(a, b, eqModel))
-					if !eqModel && c16HasRounded(a, b) {
-						sig = "law=sxhash aspect=codes-differ:float-rounding"
+					if eqModel && c16HasNegZero(a) != c16HasNegZero(b) {
+						sig = "law=sxhash aspect=codes-differ:negative-zero"
 					}
 					c.Report(sig, sweep(i, j), rp)
 				}
@@ -862,7 +910,7 @@ func c16CheckUniverse(c *lib.Ctx, u *c16Universe) {
 							"observed": "t t nil", "expected": "transitive", "expected_from": "property statement"}
 						sig := fmt.Sprintf("pred=%s law=transitive kinds=%s aspect=intransitive", c16PredName(p), c16Shape(a)+","+c16Shape(b)+","+c16Shape(d))
 						if c16HasRounded(a, b) || c16HasRounded(b, d) || c16HasRounded(a, d) {
-							sig = fmt.Sprintf("pred=%s law=transitive aspect=intransitive:float-rounding", c16PredName(p))
+							sig += ":float-rounding"
 						}
 						c.Report(sig, sweep(i, j, k), rp)
 					}
@@ -872,6 +920,11 @@ func c16CheckUniverse(c *lib.Ctx, u *c16Universe) {
 	}
 	c.Ev.Count("pred_pairs", n*n)
 	c.Ev.Count("pred_triples", n*n*n)
+}
+
+// c16HasNegZero: the object is or contains a negative float zero
+func c16HasNegZero(o *c16Obj) bool {
+	return strings.Contains(o.wire, ":D:") || strings.Contains(o.wire, ":S:")
 }
 
 // c16HashAspect classifies why two objects the implementation calls equal hash differently: when
@@ -888,7 +941,11 @@ func c16HashAspect(a, b *c16Obj, modelEqual bool) string {
 
 // ---------------------------------------------------------------------------------------------
 
+// composite generators do not emit a construct a listed finding is about
+var c16AvoidNegZero bool
+
 func c16PredFamily(c *lib.Ctx) {
+	c16AvoidNegZero = c.Findings.Listed("C16", "law=sxhash aspect=codes-differ:negative-zero")
 	// round 0: the sweep universe plus a random part; further rounds: a third of the sweep objects
 	// as anchors, variants of them (composite: fresh tokens, changed representations) and random objects
 	rounds := c.Scale(2, 100)
@@ -911,9 +968,6 @@ func c16PredFamily(c *lib.Ctx) {
 			switch {
 			case c.Rng.Chance(45) && len(wires) > 0:
 				src := wires[c.Rng.Intn(len(wires))]
-				if c16Avoid(src) {
-					continue
-				}
 				wires = append(wires, g.variant(src, 3))
 			default:
 				wires = append(wires, g.randomObj(3))
@@ -933,41 +987,6 @@ func c16PredFamily(c *lib.Ctx) {
 	}
 }
 
-// c16Avoid: composite generators do not build variants of the boundary objects that the listed
-// findings are about (numbers beyond the float precision, non-dyadic fractions, 0.0 / -0.0): the
-// rounded comparisons are single-cause sweep cells only.
-func c16Avoid(w string) bool {
-	o := c16FromWire(w)
-	var bad func(x *c16Obj) bool
-	bad = func(x *c16Obj) bool {
-		if x.rat != nil {
-			if x.rat.Sign() == 0 && strings.HasSuffix(x.kind, "-float") {
-				return true
-			}
-			abs := new(big.Rat).Abs(x.rat)
-			if abs.Cmp(big.NewRat(1<<24, 1)) >= 0 {
-				return true
-			}
-			if !x.rat.IsInt() {
-				d := x.rat.Denom()
-				if d.BitLen() > 5 || new(big.Int).And(d, new(big.Int).Sub(d, big.NewInt(1))).Sign() != 0 {
-					return true
-				}
-			}
-			return false
-		}
-		if x.kind == "list" || x.kind == "vector" {
-			for _, ch := range c16Children(x) {
-				if bad(ch) {
-					return true
-				}
-			}
-		}
-		return false
-	}
-	return bad(o)
-}
-
 func runC16(c *lib.Ctx) {
 	if c.Replay != "" {
 		c16Replay(c)
@@ -976,6 +995,7 @@ func runC16(c *lib.Ctx) {
 	c16PredFamily(c)
 	c16HashFamily(c)
 	c16TypeFamily(c)
+	c16CompoundFamily(c)
 	if c.GenBroken != "" {
 		// a generated obligation (Theorems/GenC16) no longer builds: attach it to the witnesses the
 		// type family found on the implementation (if none is found ./check reports no-failing-input-found)
